@@ -1462,7 +1462,7 @@ Hypothesis smul_mod : forall a, smul (a mod order) pG = smul a pG.
 Hypothesis smul_zero : forall a, smul a pG = pO <-> a mod order = 0.
 Hypothesis pt_eqb_spec : forall P Q, pt_eqb P Q = true <-> P = Q.
 
-Ltac clr2 := try clear xy; try clear dsha256; try clear pt_eqb_spec; try clear smul_zero; try clear smul_mod; try clear smul_add.
+Ltac clr2 := try clear sec; try clear hmac512; try clear hash160; try clear loop_fuel; try clear pt_eqb_spec; try clear smul_zero; try clear smul_mod; try clear smul_add.
 Ltac hlia := clr2; lia.
 
 Notation path_walk := (path_walk pt padd pO smul pG order pt_eqb sec hmac512 hash160 loop_fuel).
@@ -1633,16 +1633,6 @@ Lemma mismatch_rows_are :
   [("GRS", 49%N); ("GRS", 84%N); ("GRSRT", 49%N); ("GRSRT", 84%N); ("TGRS", 49%N); ("TGRS", 84%N)]%string.
 Proof. vm_compute. reflexivity. Qed.
 
-Definition dummy_row : string * N * option bytes * option bytes * option bytes * option bytes * N * N :=
-  (""%string, 0%N, None, None, None, None, 0%N, 0%N).
-Definition bad_row := hd dummy_row mismatch_rows.
-Lemma bad_row_in : In bad_row bip_prefix_table /\ codec_mismatch (row_net bad_row) = true.
-Proof.
-  assert (E : mismatch_rows = bad_row :: tl mismatch_rows) by (vm_compute; reflexivity).
-  assert (I : In bad_row mismatch_rows) by (rewrite E; left; reflexivity).
-  unfold mismatch_rows in I. apply filter_In in I. exact I.
-Qed.
-
 (* concrete witnesses in the toy instance *)
 Lemma toy_commute_fails :
   let sk := subkey_raw bool xorb false Toy.smul true 2 Bool.eqb Toy.sec Toy.hmac_retry Toy.hash160 8 in
@@ -1656,13 +1646,23 @@ Qed.
 Lemma toy_commute_holds :
   let sk := subkey_raw bool xorb false Toy.smul true 2 Bool.eqb Toy.sec Toy.hmac_good Toy.hash160 1 in
   exists c1, sk Toy.root 5 false true = Ret c1 /\ sk (neuter_node bool Toy.root) 5 false false = Ret (neuter_node bool c1).
-Proof. cbn zeta. eexists. split; vm_compute; reflexivity. Qed.
+Proof. cbn zeta. eexists. split; [vm_compute; reflexivity|vm_compute; reflexivity]. Qed.
+
+Lemma toy_root_ser_ok : ser_ok bool Toy.root.
+Proof. unfold ser_ok, Toy.root. cbn [nd_depth nd_index]. lia. Qed.
+
+Definition dummy_row : string * N * option bytes * option bytes * option bytes * option bytes * N * N :=
+  (""%string, 0%N, None, None, None, None, 0%N, 0%N).
+Definition bad_row :=
+  match find (fun r => codec_mismatch (row_net r)) bip_prefix_table with Some r => r | None => dummy_row end.
+Lemma bad_row_found : find (fun r => codec_mismatch (row_net r)) bip_prefix_table = Some bad_row.
+Proof. vm_compute. reflexivity. Qed.
+Lemma bad_row_in : In bad_row bip_prefix_table /\ codec_mismatch (row_net bad_row) = true.
+Proof. exact (find_some _ _ bad_row_found). Qed.
 
 Lemma toy_text_fails :
   exists text,
     hwif bool Toy.sec Toy.b58enc (row_net bad_row) Toy.root true = Ret text /\
     parse_hd bool false Toy.smul true 2 Bool.eqb Toy.unsec Toy.b58dec (row_net bad_row) text = Ret None.
-Proof. eexists. split; vm_compute; reflexivity. Qed.
+Proof. eexists. split; [vm_compute; reflexivity|vm_compute; reflexivity]. Qed.
 
-Lemma toy_root_ser_ok : ser_ok bool Toy.root.
-Proof. unfold ser_ok, Toy.root. cbn. lia. Qed.
